@@ -33,7 +33,13 @@ func Main(args []string) int {
 	})
 	syms := []byte{'h', 'x', '\n'}
 
-	runSchedule := func(stream []byte, labels []int) { // labels[i] for the boundary after byte i+1: 0 none, 1 cut, 2 cut+flush
+	schedNo := 0
+	runSchedule := func(stream []byte, labels []int) {
+		// every other schedule: the source hands the last bytes over together with io.EOF (an io.Reader may return n > 0 and
+		// an error from the same call); the bytes count all the same
+		schedNo++
+		lastWithEOF := schedNo%2 == 0
+		lastFrag := false // labels[i] for the boundary after byte i+1: 0 none, 1 cut, 2 cut+flush
 		var frags [][]byte
 		var flushAfter []bool
 		start := 0
@@ -54,6 +60,9 @@ func Main(args []string) int {
 			}
 			n := copy(p, pending)
 			pending = pending[n:]
+			if lastWithEOF && lastFrag && len(pending) == 0 {
+				return n, io.EOF
+			}
 			return n, nil
 		}
 		mlr := tcplistener.NewMultiLineReaderForVerif(read, test, *minBuf, *soft, func(s []byte) { out = append(out, ints(s)) })
@@ -72,6 +81,7 @@ func Main(args []string) int {
 		o.Emit(map[string]any{"ev": "FR", "op": "new"})
 		for i, f := range frags {
 			pending = f
+			lastFrag = i == len(frags)-1
 			for len(pending) > 0 { // the reader takes at most what its buffer allows
 				before := len(pending)
 				_ = mlr.Read()
